@@ -66,11 +66,29 @@ class BytesOf:
     """Opaque byte string denoting ``what`` of ``payload`` (used in hash traces)."""
     _pyvc_model_class = True
 
-    def __init__(self, what, payload):
-        self.what, self.payload = what, payload
+    def __init__(self, what, payload, tag=None):
+        self.what, self.payload, self.tag = what, payload, tag
 
     def __repr__(self):
         return f'<bytes {self.what}>'
+
+    def _len(self):
+        c = core.ctx()
+        if isinstance(self.what, tuple) and self.what[0] == 'int':
+            return 4 if self.what[1] == 'int32' else 8
+        if isinstance(self.what, tuple) and self.what[0] == 'marshal' and self.tag is not None:
+            import z3
+            f = getattr(c, '_marshal_len', None)
+            if f is None:
+                f = c._marshal_len = z3.Function('marshal_len', z3.IntSort(), z3.IntSort())
+            n = core.mk_int(f(core.zint(self.tag)))
+            c.assume(n >= 0)
+            c.assume(n < 2 ** 31)
+            return n
+        if not hasattr(self, '_length'):
+            self._length = c.fresh_int('nbytes')
+            c.assume(self._length >= 0)
+        return self._length
 
 
 class Warnings:
@@ -390,8 +408,18 @@ class Marshal:
     @staticmethod
     @model
     def dumps(value, version=4):
-        core.ctx().lib_used.add('PY-MARSHAL')
-        return BytesOf(('marshal', version), value)
+        # PY-MARSHAL: injective on values, but NOT a function of the value alone: with version >= 3 the bytes also
+        # depend on object identity / reference counts (FLAG_REF, interned strings).  ``tag`` stands for that state.
+        c = core.ctx()
+        c.lib_used.add('PY-MARSHAL (injective; bytes depend on value AND on interning / reference counts; the same '
+                       'objects marshal identically within one process)')
+        tags = getattr(c, '_marshal_tags', None)
+        if tags is None:
+            tags = c._marshal_tags = {}
+        key = (id(value), version)
+        if key not in tags:
+            tags[key] = (c.fresh_int('marshal_refstate'), value)    # keep value alive so ids are not reused
+        return BytesOf(('marshal', version), value, tag=tags[key][0])
 
 
 class Metadata:
